@@ -553,3 +553,7 @@ _add_family(globals(), _sn, 'samenode', _sn.oracle, share=0.06)
 # several ports on one node, the update object reused by the process from call to call (F35)
 from harness import reuseupd as _ru                     # noqa: E402
 _add_family(globals(), _ru, 'reuseupd', _ru.oracle, share=0.05)
+
+# glob children that come with Engine(store=, initial_state=), and glob children sharing their default object
+from harness import storeinit as _si                    # noqa: E402
+_add_family(globals(), _si, 'storeinit', _si.oracle, share=0.04)
